@@ -279,27 +279,26 @@ DOT_NAMES = [".", "..", "a.", ".a", "a.b", " .", ". ", "a .", "1.", ".1", "._"]
 
 def drv_names_dots(c, ctx, col):
     """column names made of / containing dots: a back-quoted name is a name, never the '.' wildcard.
-    Plus the empty name: the library rejects it inside Python fragments ("must not be empty"); as an operand it must
-    likewise be rejected or reference the column named '' -- not vanish from the formula without a trace."""
+    Plus the empty name: the library's rule is "back-quoted variable names must not be empty" (3890fe1, a54ee9e), so every
+    form must be rejected with the parsing error -- in particular it must not vanish from the formula without a trace."""
     name = c.pick(DOT_NAMES + [""])
     form = c.pick(NAME_FORMS)
     col.interesting()
     if name == "":
         fname, tmpl = form[0], form[1]
         formula = tmpl.replace("%s", "")
-        if form[2] is None:
-            col.count("empty-name-in-python-fragment(rejection accepted)")
-            return
         try:
             terms = get_terms(formula, icpt=False)
-            got = [[f.expr for f in t.factors] for t in terms.root]
         except FormulaParsingError:
             col.count("empty-name-rejected")
             return
-        if not any("" in t for t in got):
-            col.violation("names/%s :: %r" % (fname, formula),
-                          {"formula": formula, "got_terms": got, "repro": "DefaultFormulaParser(include_intercept=False).get_terms(%r)" % formula},
-                          sig="empty-backticked-name-silently-dropped")
+        except Exception as e:  # noqa
+            col.violation("names/%s :: %r" % (fname, formula), {"formula": formula, "error": repr(e)}, sig="empty-backticked-name-not-rejected")
+            return
+        col.violation("names/%s :: %r" % (fname, formula),
+                      {"formula": formula, "got_terms": terms_to_plain(terms), "want": "FormulaParsingError (back-quoted names must not be empty)",
+                       "repro": "DefaultFormulaParser(include_intercept=False).get_terms(%r)" % formula},
+                      sig="empty-backticked-name-not-rejected")
         return
     check_name(col, name, form, no_intercept=True)
 
@@ -418,6 +417,9 @@ PY_EXPRS = [
     ("x if y else z", False), ("x + y", False), ("(x + y) * 2", False), ("x[0] + y.z", False), ("[t for t in x]", False),
     ("{k: v for k, v in x}", False), ("not x", False), ("x if y else \"a}b\"", False), ("`a b` + `c`", False),
     ("{1: 2}[x]", False), ("lambda: x", False), ("exp(`x`)", True), ("f(`a`, max, b)", True), ("`x` + exp(y)", False),
+    ("x in `a b`", False), ("`a b` if x else 0", False), ("not `a b`", False), ("[v * 2 for v in `a b`]", False),
+    ("`a b` and x or `c d`", False), ("x if `a b` else `c d`", False), ("`a b` is not None", False), ("lambda v: v in `a b`", False),
+    ("`a b` in `c d`", False), ("f(x in `a b`, not `c d`)", True), ("f(`a b` if `c` else `d e`)", True), ("f(v for v in `a b` if v)", True),
     ("f(x, TQa bTQ)".replace("TQ", "'" * 3), True), ('f(x, """a b""")', True), ("f(x, TQa'bTQ)".replace("TQ", "'" * 3), True),
     ('f(x, """a"b""")', True), ("f(x, TQa\"bTQ)".replace("TQ", "'" * 3), True),
 ]
@@ -461,7 +463,7 @@ def needs_space(l, r, had_space):
     if not had_space:
         return False
     a, b = l[-1], r[0]
-    wordish = lambda ch: ch.isalnum() or ch in "_`\"'"
+    wordish = lambda ch: ch.isalnum() or ch in "_\"'"   # (a back-tick delimits itself: x in`a b` is fine)
     if wordish(a) and wordish(b):
         return True
     if a in OPCH and b in OPCH:
@@ -816,6 +818,10 @@ EVAL_EXPRS = [
     ("(a, b)[1]", False), ("a.to_numpy().real", False), ("(a @ b) * a", False), ("fs[0](a)[0]", True), ("g(`a b`)(fs[0](b))", True),
     ("(a + b).abs().max() - (a - b).abs().min()", False), ("fs[0](`a b` - a.mean()).max()", False), ("(a > 0).astype(float).mean()", False),
     ("np.abs(a - b)", True), ("a.abs()", True), ("a + b", False),
+    # a back-quoted name written directly against a keyword / word operator
+    ("[v * 2 for v in`a b`]", False), ("`a b`if True else b", False), ("b if False else`a b`", False), ("0 or`a b`", False), ("1 and`a b`", False),
+    ("`a b`is not None", False), ("np.array([v in`a b`.values for v in a.abs() + 2.5], dtype=float)", False), ("(lambda v: v)(b)if False else`a b`", False),
+    ("np.where([not v for v in`a b`> 4], a, b)", True), ("g(1 if`a b`is None else`a b`)(b)", True),
 ]
 EVAL_POSITIONS = ["%s", "%s + b", "b + %s", "%s:b", "y ~ %s", "%s - 1"]
 EVAL_A, EVAL_B, EVAL_AB, EVAL_Y = [1.5, -2.5, 4.0, -0.5], [2.0, 1.0, -3.0, 0.5], [3.0, 4.0, 5.0, 6.0], [0.0, 1.0, 0.0, 1.0]
@@ -838,7 +844,7 @@ def drv_py_eval(c, ctx, col):
     env = {"fs": [np.abs, np.sign], "g": lambda u: (lambda v: u * v), "d": {"k": np.abs}, "ns": ns}
     # the value computed by plain Python / pandas
     plain = dict(env, np=np, a=df["a"], b=df["b"], ab__=df["a b"])
-    want = np.broadcast_to(np.asarray(eval(expr.replace("`a b`", "ab__"), plain), dtype=float), (4,))
+    want = np.broadcast_to(np.asarray(eval(expr.replace("`a b`", " ab__ "), plain), dtype=float), (4,))
     bcol = np.array(EVAL_B)
     expect = {"%s": [want], "%s + b": [want, bcol], "b + %s": [want, bcol], "%s:b": [want * bcol], "y ~ %s": [want], "%s - 1": [want]}[pos]
     col.interesting()
